@@ -112,6 +112,11 @@ def pc(cond: Term, pol: bool) -> tuple:
     """Canonical path-condition entry: the atom carries no outer negation."""
     while cond[0] == "u" and cond[1] == "not":
         cond, pol = cond[2], not pol
+    # an arithmetic result compared with zero is its truth value: `a % b != 0` == `a % b`
+    if cond[0] == "cmp" and cond[1] in ("!=", "==") and len(cond) == 4:
+        x, z = (cond[2], cond[3]) if cond[3] in (("c", 0), ("c", 0.0)) else (cond[3], cond[2])
+        if z in (("c", 0), ("c", 0.0)) and x[0] == "op" and x[1] in ("%", "//", "-", "+", "*"):
+            return (x, pol if cond[1] == "!=" else not pol)
     return (cond, pol)
 
 
@@ -124,6 +129,20 @@ def pcs(cond: Term, pol: bool) -> tuple:
         for x in cond[2]:
             out += pcs(x, pol)
         return out
+    # a boolean written as a join (a helper that returns early): phi(c, False, d) is
+    # `not c and d`, phi(c, d, False) is `c and d` (and the duals for a False condition)
+    if cond[0] == "phi" and len(cond) == 4:
+        c_, a, b = cond[1], cond[2], cond[3]
+        if pol:
+            if a == ("c", False):
+                return pcs(c_, False) + pcs(b, True)
+            if b == ("c", False):
+                return pcs(c_, True) + pcs(a, True)
+        else:
+            if a == ("c", True):
+                return pcs(c_, False) + pcs(b, False)
+            if b == ("c", True):
+                return pcs(c_, True) + pcs(a, False)
     return ((cond, pol),)
 
 
@@ -210,14 +229,41 @@ class Effect:
         return f"Effect({pretty(self.term)})"
 
 
+import itertools as _it
+
+_TICK = _it.count(1)
+
+
+class TickList(list):
+    """A list that remembers WHEN (global evaluation order) each entry was appended:
+    `ticks[i]` orders stores and calls of one evaluation against each other, also across
+    helpers that were read through (source line numbers do not: a helper may be defined
+    anywhere in the file)."""
+
+    def __init__(self, *a):
+        super().__init__(*a)
+        self.ticks = [next(_TICK) for _ in self]
+
+    def append(self, x, tick=None):
+        super().append(x)
+        self.ticks.append(next(_TICK) if tick is None else tick)
+
+    def __delitem__(self, k):
+        super().__delitem__(k)
+        del self.ticks[k]
+
+    def tick_of(self, i):
+        return self.ticks[i]
+
+
 class Result:
     def __init__(self):
         self.returns: list[tuple[tuple, Term, ast.AST]] = []  # (pathcond, term, node)
         self.raises: list[tuple[tuple, Term, ast.AST]] = []
         self.effects: list[Effect] = []
         self.env: Env | None = None  # environment at normal fall-through / merged
-        self.stores: list[tuple[Term, Term, ast.AST, tuple]] = []  # (loc, value, node)
-        self.calls: list[tuple[Term, ast.AST, tuple]] = []  # every call, in eval order
+        self.stores: TickList = TickList()  # (loc, value, node, cond)
+        self.calls: TickList = TickList()  # every call, in eval order
         self.loops: list[dict] = []
         self.local_defs: dict = {}
 
@@ -226,18 +272,38 @@ class Result:
         return {**self.local_defs, **(self.env.vars if self.env else {})}
 
     def ret(self) -> Term | None:
-        """Single merged return term (phi over paths) or None."""
+        """Single merged return term or None: the returns of all paths as ONE decision tree
+        over the path-condition atoms, built by splitting on atoms (never on source order),
+        so `if c: return A` / `return B`, the swapped `if not c: return B` / `return A` and
+        `return A if c else B` all give phi(c, A, B).  A prefix of conditions shared by all
+        returns (the caller's context of an inlined helper) is not part of the value."""
         if not self.returns:
             return None
-        out = self.returns[-1][1]
-        for cond, term, _ in reversed(self.returns[:-1]):
-            if term != out:
-                if len(cond) == 1:
-                    atom, pol = cond[0]
-                    out = phi_(atom, term, out) if pol else phi_(atom, out, term)
-                else:
-                    out = ("phi", ("path", cond), term, out)
-        return out
+        rs = [(tuple(c_), t) for c_, t, _ in self.returns]
+        while all(c_ for c_, _ in rs) and len({c_[0] for c_, _ in rs}) == 1:
+            rs = [(c_[1:], t) for c_, t in rs]
+
+        def strip(c_, atom):
+            return tuple(x for x in c_ if x[0] != atom)
+
+        def build(rs, depth=0):
+            if len({t for _, t in rs}) == 1 or depth > 40:
+                return rs[0][1]
+            atom = next((c_[0][0] for c_, _ in rs if c_), None)
+            if atom is None:
+                # (entries that matched the split atoms come first: the more specific
+                # return wins over an unconditional one, e.g. `except` over the try body)
+                return rs[0][1]
+            tt = [(strip(c_, atom), t) for c_, t in rs if (atom, True) in c_]
+            ff = [(strip(c_, atom), t) for c_, t in rs if (atom, False) in c_]
+            nn = [(c_, t) for c_, t in rs if all(a != atom for a, _ in c_)]
+            tt, ff = tt + nn, ff + nn
+            if not tt:
+                return build(ff, depth + 1)
+            if not ff:
+                return build(tt, depth + 1)
+            return phi_(atom, build(tt, depth + 1), build(ff, depth + 1))
+        return build(rs)
 
 
 class Evaluator:
@@ -305,6 +371,16 @@ class Evaluator:
         # follow simple module-level aliases   x = some.dotted.name
         mod, _, nm = q.rpartition(".")
         mi = self.repo.modules.get(mod)
+        # a module-level name bound to a literal is that literal (`_JITTER = 0.001`)
+        if mi is not None and nm in mi.assigns and q not in self.repo.functions \
+                and q not in self.repo.classes:
+            lit = mi.assigns[nm]
+            if isinstance(lit, ast.Constant) and isinstance(lit.value, (int, float)) \
+                    and not isinstance(lit.value, bool):
+                return c(lit.value)
+            if isinstance(lit, ast.UnaryOp) and isinstance(lit.op, ast.USub) and isinstance(
+                    lit.operand, ast.Constant) and isinstance(lit.operand.value, (int, float)):
+                return c(-lit.operand.value)
         if mi is not None and nm in mi.assigns and q not in self.repo.functions:
             tgt = dotted(mi.assigns[nm])
             if tgt:
@@ -373,7 +449,7 @@ class Evaluator:
         # f(...)[i] with a constant index is the i-th component of the result: the same
         # term as tuple unpacking  a, b = f(...)
         if idx[0] == "c" and isinstance(idx[1], int) and not isinstance(idx[1], bool) \
-                and idx[1] >= 0 and base[0] in ("call", "fresh"):
+                and idx[1] >= 0 and base[0] in ("call", "fresh", "proj"):
             return ("proj", base, idx[1])
         # projection of literal containers
         if base[0] in ("tuple", "list") and idx[0] == "c" and isinstance(idx[1], int):
@@ -448,7 +524,7 @@ class Evaluator:
         return ("bool", "and", tuple(parts))
 
     def e_IfExp(self, e):
-        return phi_(self.expr(e.test), self.expr(e.body), self.expr(e.orelse), "ifexp")
+        return phi_(self.expr(e.test), self.expr(e.body), self.expr(e.orelse))
 
     def e_JoinedStr(self, e):
         parts = []
@@ -524,6 +600,8 @@ class Evaluator:
                 kwargs.append(("**", self.expr(kw.value)))
             else:
                 kwargs.append((kw.arg, self.expr(kw.value)))
+        args = tuple(self._fn_value(a) for a in args)
+        kwargs = [(k, self._fn_value(v)) for k, v in kwargs]
         args, kwargs = self._canon_call(f, args, kwargs)
         t = ("call", f, args, tuple(sorted(kwargs)))
         if not args and not kwargs and f in (("n", "dict"), ("n", "list"), ("n", "set")):
@@ -540,6 +618,47 @@ class Evaluator:
             if r is not None:
                 return r
         return t
+
+    def _fn_value(self, t):
+        """A reference to a NEW function (not in the baseline list) used as a value --
+        handed to vmap / cond / combine_filtered / a node -- is read as the lambda it
+        stands for, so naming a lambda (or un-naming a function) changes no term."""
+        fi, bind_self = None, False
+        if t[0] == "fn":
+            # a local `def f(a): return e` is the lambda `lambda a: e` with a name
+            lf = self.repo.functions.get(t[1])
+            if lf is not None and isinstance(lf.node, ast.FunctionDef):
+                body = [x for x in lf.node.body if not (isinstance(x, ast.Expr) and isinstance(
+                    x.value, ast.Constant))]
+                a = lf.node.args
+                if len(body) == 1 and isinstance(body[0], ast.Return) and body[0].value is not None \
+                        and not (a.vararg or a.kwarg or a.kwonlyargs or a.defaults):
+                    lam = ast.Lambda(args=a, body=body[0].value)
+                    ast.copy_location(lam, lf.node)
+                    return self.e_Lambda(lam)
+            return t
+        if t[0] == "g":
+            fi = self.repo.functions.get(t[1])
+        elif t[0] == "a" and t[1] == n("self") and self.fi.cls is not None:
+            fi = self.repo.lookup_method(self.fi.cls, t[2])
+            bind_self = fi is not None and "staticmethod" not in fi.decorators()
+        if fi is None or fi.qualname in baseline_functions() or "<locals>" in fi.qualname \
+                or not isinstance(fi.node, ast.FunctionDef) or getattr(self, "_fv_depth", 0) > 2:
+            return t
+        a = fi.node.args
+        if a.vararg or a.kwarg or a.kwonlyargs:
+            return t
+        params = [x.arg for x in a.posonlyargs + a.args]
+        if bind_self:
+            params = params[1:]
+        sub = Evaluator(self.repo, fi, inline=getattr(self.inline, "_custom", None),
+                        inline_depth=self.inline_depth,
+                        bindings={"self": n("self")} if bind_self else None)
+        sub._fv_depth = getattr(self, "_fv_depth", 0) + 1
+        body = sub.run().ret()
+        if body is None:
+            return t
+        return ("lambda", tuple(params), body)
 
     def _canon_call(self, f, args, kwargs):
         """Keyword arguments of calls to liesel functions become positional where that
@@ -566,8 +685,61 @@ class Evaluator:
 
     # ------------------------------------------------------------- statements
 
+    @staticmethod
+    def _search_loops(stmts):
+        """`for x in it: if p: return True` / `return False`  ==  `return any(p for x in
+        it)` (and the dual with `all`): the explicit search loop gets the normal form of
+        the generator expression."""
+        out, i = [], 0
+        while i < len(stmts):
+            st = stmts[i]
+            nxt = stmts[i + 1] if i + 1 < len(stmts) else None
+            if isinstance(st, ast.For) and not st.orelse and len(st.body) == 1 \
+                    and isinstance(st.body[0], ast.If) and not st.body[0].orelse \
+                    and len(st.body[0].body) == 1 and isinstance(st.body[0].body[0], ast.Return) \
+                    and isinstance(nxt, ast.Return) \
+                    and isinstance(st.body[0].body[0].value, ast.Constant) \
+                    and isinstance(getattr(nxt, "value", None), ast.Constant) \
+                    and isinstance(st.body[0].body[0].value.value, bool) \
+                    and isinstance(nxt.value.value, bool) \
+                    and st.body[0].body[0].value.value != nxt.value.value:
+                found = st.body[0].body[0].value.value
+                test = st.body[0].test
+                elt = test if found else ast.UnaryOp(op=ast.Not(), operand=test)
+                gen = ast.GeneratorExp(elt=elt, generators=[ast.comprehension(
+                    target=st.target, iter=st.iter, ifs=[], is_async=0)])
+                call = ast.Call(func=ast.Name(id="any" if found else "all", ctx=ast.Load()),
+                                args=[gen], keywords=[])
+                new = ast.Return(value=call)
+                ast.copy_location(new, st)
+                ast.fix_missing_locations(new)
+                out.append(new)
+                i += 2
+                continue
+            out.append(st)
+            i += 1
+        return out
+
+    @staticmethod
+    def _continue_guards(stmts):
+        """`if c: A; continue` followed by R  ==  `if c: A` / `else: R`: a guard clause in
+        a loop body gets the normal form of the nested conditional."""
+        for i, st in enumerate(stmts):
+            if isinstance(st, ast.If) and not st.orelse and st.body \
+                    and isinstance(st.body[-1], ast.Continue) and i + 1 < len(stmts) \
+                    and not any(isinstance(x, (ast.Continue, ast.Break))
+                                for b in st.body[:-1] for x in ast.walk(b)):
+                rest = Evaluator._continue_guards(list(stmts[i + 1:]))
+                new = ast.If(test=st.test, body=list(st.body[:-1]) or [ast.Pass()], orelse=rest)
+                ast.copy_location(new, st)
+                ast.fix_missing_locations(new)
+                return list(stmts[:i]) + [new]
+        return stmts
+
     def block(self, stmts) -> bool:
         """Returns False when control cannot fall through."""
+        stmts = self._search_loops(list(stmts))
+        stmts = self._continue_guards(stmts)
         for st in stmts:
             m = getattr(self, "s_" + type(st).__name__, None)
             if m is None:
@@ -1057,12 +1229,13 @@ def make_inliner(repo: Repo, targets: dict[str, FunctionInfo] | None = None,
         for loc, val in sub.env.heap.items():
             if ev.env.heap.get(loc) != val:
                 ev.env.heap[loc] = val
-        for s in r.stores:
-            ev.res.stores.append(s)
+        # (entries keep the moment they were evaluated at: see TickList)
+        for i_, s in enumerate(r.stores):
+            ev.res.stores.append(s, tick=r.stores.ticks[i_])
         for e in r.effects:
             ev.res.effects.append(e)
-        for cl in r.calls:
-            ev.res.calls.append(cl)
+        for i_, cl in enumerate(r.calls):
+            ev.res.calls.append(cl, tick=r.calls.ticks[i_])
         for lp in r.loops:
             ev.res.loops.append(lp)
         # a guard that rejects inside the callee rejects the caller's call as well
